@@ -72,8 +72,10 @@ def run_case(ctx, case):
     if '--no-stderr' not in flags:
         want_refs.append('STDERR')
     if case['refmode'] != 'none':
-        want_refs += [f['name'] for f in spec['files']]
-    missing = [r for r in want_refs if not os.path.exists(os.path.join(g.refdir, r))]
+        want_refs += [os.path.basename(f['name']) for f in spec['files']]
+    # (gentest stores a second file with the same name - compared case-insensitively - under name+number)
+    have = os.listdir(g.refdir) if os.path.isdir(g.refdir) else []
+    missing = [r for r in want_refs if not any(h == r or (h.startswith(r) and h[len(r):].isdigit()) for h in have)]
     if missing:
         rec.violation('reference_files_missing', {'case': case, 'mech': dict(mech, which=sorted(set('stream' if m in ('STDOUT', 'STDERR') else 'file' for m in missing))),
                                                   'facts': {'missing': missing, 'refdir': sorted(os.listdir(g.refdir)) if os.path.isdir(g.refdir) else None}})
